@@ -177,6 +177,20 @@ impl<A: Send + 'static> Cell<A> {
                 // Hack: Add stream gc node twice, because one is kepted in the cell_data for Cell::update() to return.
                 node.add_update_dependencies(vec![stream_dep.clone(), stream_dep]);
             }
+            {
+                // An initial-value thunk that was never forced may own handles (a mapped or lifted
+                // cell's thunk shares the user function, and what it captures, with the update
+                // closure). Release it with the node: otherwise a captured handle of this very
+                // cell keeps its data, and the stream handle in it, alive after the node was freed.
+                let cell_data = Arc::downgrade(&cell_data);
+                node.data().cleanups.write().push(Box::new(move || {
+                    if let Some(cell_data) = cell_data.upgrade() {
+                        let dead: Lazy<A> = Lazy::new(|| panic!("value of a freed cell"));
+                        let old = mem::replace(&mut cell_data.lock().value, dead);
+                        drop(old);
+                    }
+                }));
+            }
             let c = Cell {
                 data: cell_data,
                 node: node.clone(),
